@@ -62,7 +62,7 @@ try:
     res = {}
     for c in checks:
         e2 = dict(env, PYTHONPATH=wt)
-        rc, o = sh(['/verif/check', c, '--tier', 'quick'], cwd='/verif', env=e2, timeout=1800)
+        rc, o = sh(['/verif/check', c, '--tier', 'quick'], cwd='/verif', env=e2, timeout=3000)
         viol = [l for l in o.splitlines() if l.startswith('VIOLATION')]
         res[c] = {'rc': rc, 'violations': len(viol), 'first': viol[0][:300] if viol else '',
                   'tail': '' if viol else o[-300:]}
